@@ -91,11 +91,11 @@ Queue(op) ==
   /\ act' = [name |-> "Queue", op |-> op]
   /\ UNCHANGED <<pri, pub, pubq, pubm, pubmq, ntries, alive>>
 
-CanExec == alive /\ (mq # <<>> \/ pubq # <<>> \/ pubmq # <<>>)
-\* number of statements of the private / public transaction (the failure positions are 0..that number,
-\* the last one being the commit itself)
+CanExec == alive /\ (mq # <<>> \/ pubq # <<>>)
+\* number of statements of the private / public transaction; the failure positions are 0..that number
+\* (k < n: statement k fails after k statements ran; k = n: the commit fails).  Recorded in `act` as n.
 NPri == Len(mq)
-NPub == Len(pubmq) + Len(mq)
+NPub == Len(Flatten(pubq)) + Len(mq)
 
 \* both transactions succeed
 ExecOK ==
@@ -114,14 +114,14 @@ PubFail(k) ==
   /\ pubq' = IF mq = <<>> THEN pubq ELSE Append(pubq, mq)
   /\ pubmq' = pubmq \o mq
   /\ mq' = <<>> /\ ntries' = ntries + 1
-  /\ act' = [name |-> "PubFail", k |-> k]
+  /\ act' = [name |-> "PubFail", k |-> k, n |-> NPub]
   /\ UNCHANGED <<pub, pubm, alive, nops>>
 
 \* the private transaction fails at statement k (k = NPri: at commit): nothing is applied anywhere, fatal
 PriFail(k) ==
   /\ CanExec /\ mq # <<>> /\ k \in 0..NPri
   /\ alive' = FALSE
-  /\ act' = [name |-> "PriFail", k |-> k]
+  /\ act' = [name |-> "PriFail", k |-> k, n |-> NPri]
   /\ UNCHANGED <<mq, pri, pub, pubq, pubm, pubmq, ntries, nops>>
 
 \* the process is killed inside the private transaction (before its commit), or after the private
@@ -131,7 +131,7 @@ Crash(db, k) ==
   /\ \/ db = "pri" /\ mq # <<>> /\ k \in 0..(NPri - 1) /\ UNCHANGED pri
      \/ db = "pub" /\ k \in 0..(NPub - 1) /\ NPub > 0 /\ pri' = ApplyBatch(pri, mq)
   /\ alive' = FALSE
-  /\ act' = [name |-> "Crash", db |-> db, k |-> k]
+  /\ act' = [name |-> "Crash", db |-> db, k |-> k, n |-> IF db = "pri" THEN NPri ELSE NPub]
   /\ UNCHANGED <<mq, pub, pubq, pubm, pubmq, ntries, nops>>
 
 \* a new scheduler process on the same files: the public file is re-created from the private one
